@@ -42,6 +42,8 @@ func main() {
 
 	h.findingReplays()
 	h.forgedProofCases(lib.Count(3, 60))
+	h.wrongCountCases(lib.Count(2, 80))
+	h.spellingCases()
 	nSeq := lib.Count(140, 1500)
 	for i := 0; i < nSeq && atomic.LoadInt32(&hangs) < 3; i++ {
 		h.sequentialCase(i)
